@@ -5,6 +5,45 @@ NOTES = ('Every check: TLC explores the TLA+ model (spec/), behaviours it emits 
          'code that the specification rejects; model-only failures exit 2 (machinery). known_findings.json lists recorded defects.')
 NOT_CLAIMED = {}
 CLAIMS = {
+ 'C05': {
+  'text': 'For every validated document the verdict is true exactly when no error was reported; the 997/999 is addressed back to the sender, names every group '
+          'and set in order with its own control number, marks a set or group A exactly when nothing was reported inside it, gives declared / received / '
+          'accepted totals equal to a recount and itemises every reported standard-coded segment or element error at its segment position, element position '
+          'and value. All of this is the TLA+ definition spec/AckDef.tla, judged by TLC (T_Ack) on every real execution; TLC also model-checks the '
+          'implementation-shaped error tree and visitors (ErrTree, AckVisit, Ack997, Ack999, driven by the AckGen environment over the Envelope reader model) '
+          'against AckDef, and every scenario TLC emits is realised as a real document (997 and 999, multi-set/group/interchange, three delimiter sets).',
+  'note': 'An error is "reported" when a *_error call is made on the handler, and "inside" by the input segment being processed. Errors reported at a segment '
+          'that implicitly closes an unclosed loop decide nothing; unclosed loops without their own errors may carry any code. AK5/AK9 note codes and SEG1 are '
+          'not checked. Group and set naming is only claimed when every header finds its enclosing loop open. An echoed value may differ from the offending '
+          'value only at positions holding a separator of the acknowledgement itself (C06 forbids carrying it). Known finding: AK903 = 0 for a group that lost its GE '
+          '(pinned by the repository fixture 837miss).',
+  'technique': 'TLA+ model (ErrTree/Ack997/Ack999/AckGen) model-checked by TLC against the definition AckDef + TLC scenarios realised as real documents + '
+               'TLC trace validation (T_Ack) of every recorded execution (definition clause = violation, implementation-shaped model mismatch = drift)',
+ },
+ 'C06': {
+  'text': 'Every 997/999 written is a complete ISA..IEA interchange whose SE/GE/IEA counts and control numbers are right by an independent recount (spec/Recount.tla '
+          'reused through AckDef) with unique ST02; every line keeps its element and component structure despite echoed values (inputs using other delimiters, '
+          'values containing ~ * : ^); the acknowledgement is re-read by the real X12Reader without any envelope error and, fed back to x12n_document, selects the '
+          '997/999 map and is accepted unless the only complaints are element errors at echo positions. Decided by TLC (T_Ack) on every real execution; the '
+          'visitor models Ack997/Ack999 are model-checked against the same clauses.',
+  'note': 'Same scenario family as C05 (TLC-generated documents with 1-2 interchanges x 1-2 groups x 1-3 sets, envelope variants, stray and truncated trailers, '
+          'echo classes TERM/ELE/SUB/REP). Dates, times and the random control numbers of the acknowledgement are only compared header-to-trailer.',
+  'technique': 'TLA+ model (Ack997/Ack999 over ErrTree) model-checked by TLC against AckDef/Recount + TLC scenarios realised as real documents + real re-read and '
+               're-validation of every acknowledgement + TLC trace validation (T_Ack)',
+ },
+ 'C07': {
+  'text': 'For every input text, every requested sink (997/999, HTML, XML; quick: each alone, thorough: all 16 sink x charset combinations) and both charsets, '
+          'x12n_document returns a boolean; X12Reader iteration + pop_errors + cleanup and X12ContextReader.iter_segments (no loop id and loop ids) run to completion. '
+          'The only exceptions are the documented refusal of non-interchanges (False / X12Error: no ISA prefix, shorter than 106 characters, unknown version, '
+          'malformed ISA) and EngineError "Map not found" for groups without a transaction map; nothing else escapes and every call terminates (CPU-time guard). '
+          'The input class and the allowed outcome set per class are the TLA+ definition spec/ValidateDef.tla; spec/Mutate.tla generates all single and seeded double '
+          'structural mutations (16 kinds) of 5 fixture skeletons; TLC (T_Validate) recomputes the class of every input and judges every recorded outcome.',
+  'note': 'Checked on all single and sampled double mutations of 5 fixtures (837P 4010, 834 5010, 835, 270, 278+837+835), on seeded arbitrary strings and ISA header edits, '
+          'and on one minimal interchange per maps.xml entry; not a proof for all texts. Known finding: maps.xml lists 841.4010.XXXC.xml, which cannot be loaded '
+          '(undefined data elements, see C16) and raises EngineError instead of a verdict.',
+  'technique': 'TLA+ generator (Mutate: BFS + seeded simulation) -> concretised real documents -> real entry points under a time guard -> TLC trace validation '
+               '(T_Validate) against the outcome set ValidateDef defines per input class',
+ },
  'C17': {
   'text': 'TLC enumerates every path record of the bounded grammar (PathGen: <=2/3 loop ids over 9 ids x 4 segment ids x 3 qualifiers x 5 element x 4 component indexes) '
           'and every history of <=2/3 set() calls (SegOps) with the read-back/others-unchanged/exact-growth laws as action properties; every emitted behaviour is replayed '
